@@ -70,6 +70,9 @@ type c13Op struct {
 	V   *c13EtcdVal `json:"v,omitempty"`
 	Raw string      `json:"raw,omitempty"` // put: literal payload instead of V
 	U   string      `json:"u,omitempty"`
+	// what the implementation did at this op when the case was recorded (kept with the op so that
+	// it stays with it when the driver shrinks a case by deleting ops; not read on replay)
+	Out string `json:"out,omitempty"`
 }
 
 type c13Case struct {
@@ -81,7 +84,7 @@ type c13Case struct {
 	Edits    []string `json:"edits,omitempty"` // what the generator changed between configurations
 	Scenario string   `json:"scenario,omitempty"` // "stress-static" / "stress-etcd": concurrency run instead of ops
 	Ops      []c13Op  `json:"ops"`
-	Outs     []string `json:"outs,omitempty"`
+	Outs     []string `json:"-"` // observations of this run, in step with Ops (JSON: c13Op.Out)
 	Panic    string   `json:"panic,omitempty"`
 }
 
@@ -294,6 +297,7 @@ func c13UrlTable(c *c13Case) string {
 			var info BackendInformationEtcd
 			if json.Unmarshal(data, &info) == nil && info.Url != "" {
 				add(info.Url)
+				add(c13AddSlash(info.Url)) // the second clause of the predicate reads the slash-terminated URL
 			}
 		case "probe":
 			add(o.U)
@@ -483,6 +487,9 @@ func c13RunAll(t *testing.T, env verifEnv, cases []*c13Case) map[int]*c13StressR
 		byId[c.Id] = c
 		c.Outs = nil
 		c.Panic = ""
+		for i := range c.Ops {
+			c.Ops[i].Out = ""
+		}
 		c13Normalise(c)
 	}
 	rest := cases
@@ -947,7 +954,7 @@ func (g *c13Gen) probes(extra []string) []string {
 	var out []string
 	add := func(s string) { out = append(out, s) }
 	for _, u := range base {
-		switch g.r.intn(6) {
+		switch g.r.intn(8) {
 		case 0:
 			add(u)
 		case 1:
@@ -973,11 +980,20 @@ func (g *c13Gen) probes(extra []string) []string {
 				}
 				add(p.String())
 			}
-		default:
+		case 5:
 			add(u + "z")
+		default:
+			// continue the last path segment of the configured URL (written with or without
+			// trailing slash): a sibling path, which belongs to another backend or to none
+			stem := strings.TrimSuffix(u, "/")
+			if p, err := url.Parse(stem); err != nil || p.Path == "" {
+				add(stem + "x") // no path: the host would continue
+				break
+			}
+			add(stem + pick(g.r, []string{"-test/ocs/v2.php", "2", "2/", "x/y", "-test", "%2F", ".", "_/"}))
 		}
 	}
-	for len(out) > 10 {
+	for len(out) > 12 {
 		i := g.r.intn(len(out))
 		out = append(out[:i], out[i+1:]...)
 	}
@@ -1113,6 +1129,50 @@ func c13GenEtcd(seed int64, id int, stream string) *c13Case {
 	return c
 }
 
+// c13Norm is the text the server compares: url.String() with a written-out standard port dropped.
+func c13Norm(s string) string {
+	u, err := url.Parse(s)
+	if err != nil {
+		return ""
+	}
+	if strings.Contains(u.Host, ":") && ((u.Scheme == "https" && u.Port() == "443") || (u.Scheme == "http" && u.Port() == "80")) {
+		u.Host = u.Hostname()
+	}
+	return u.String()
+}
+
+// c13OracleRegular checks the assumption the etcd theorem of the second clause makes about
+// net/url (coq/proofs/BackendCfg_owner.v, oracle_regular) on a URL text written to etcd:
+// String() of a URL whose standard port is dropped is not empty, and a text that does not
+// end in "/" parses with "/" appended, with the same decision about the port and, where
+// it is dropped, the same String() up to that slash.  "" = holds (or the text does not parse).
+func c13OracleRegular(s string) string {
+	u, err := url.Parse(s)
+	if err != nil {
+		return ""
+	}
+	normalised := func(u *url.URL) bool {
+		return strings.Contains(u.Host, ":") && ((u.Scheme == "https" && u.Port() == "443") || (u.Scheme == "http" && u.Port() == "80"))
+	}
+	if normalised(u) && c13Norm(s) == "" {
+		return fmt.Sprintf("String() of %q with the standard port dropped is empty", s)
+	}
+	if strings.HasSuffix(s, "/") {
+		return ""
+	}
+	u2, err := url.Parse(s + "/")
+	if err != nil {
+		return fmt.Sprintf("%q parses, %q does not: %v", s, s+"/", err)
+	}
+	if normalised(u) != normalised(u2) {
+		return fmt.Sprintf("standard port of %q and %q judged differently", s, s+"/")
+	}
+	if normalised(u) && c13AddSlash(c13Norm(s)) != c13AddSlash(c13Norm(s+"/")) {
+		return fmt.Sprintf("String() of %q and %q differ by more than the slash: %q, %q", s, s+"/", c13Norm(s), c13Norm(s+"/"))
+	}
+	return ""
+}
+
 // ---- directed cases: the histories of the confirmed defects and of the open finding -------
 
 func c13Directed() []*c13Case {
@@ -1163,6 +1223,46 @@ func c13Directed() []*c13Case {
 		{K: "init", C: cfg([]int{1, 2}, sec(1, "https://h1.example/a/"), sec(2, "https://h1.example/b/"))},
 		{K: "reload", C: cfg([]int{2}, sec(2, "https://h1.example/b/"))}},
 		probe("https://h1.example/a/x", "https://h1.example/b/x")...)})
+	// path-segment boundary: two (three) backends on one host whose paths share a string prefix but
+	// not a path prefix, the shorter one listed first and last, with and without trailing slash and
+	// with a written-out standard port; every URL must be accepted for its own backend only
+	seg := func(ids []int, slash string, port string) *c13Config {
+		return cfg(ids, sec(1, "https://cloud.example"+port+"/nextcloud"+slash), sec(2, "https://cloud.example"+port+"/nextcloud-test"+slash),
+			sec(3, "https://cloud.example"+port+"/nextcloud2"+slash))
+	}
+	segProbes := probe("https://cloud.example/nextcloud-test/ocs/v2.php/apps/spreed/api/v1/signaling/backend", "https://cloud.example/nextcloud-test",
+		"https://cloud.example/nextcloud/ocs/v2.php", "https://cloud.example/nextcloud", "https://cloud.example/nextcloud2/index.php", "https://cloud.example:443/nextcloud2",
+		"https://cloud.example/nextcloudx", "https://cloud.example/nextcloud-tes", "https://cloud.example/nextclou/x", "https://cloud.example/nextcloud-test2/x")
+	cs = append(cs, &c13Case{Id: 900009, Kind: 0, Mode: 1, Stream: "directed", Ops: append(append(append([]c13Op{
+		{K: "init", C: seg([]int{1, 2, 3}, "", "")}}, segProbes...),
+		append([]c13Op{{K: "reload", C: seg([]int{3, 2, 1}, "/", "")}}, segProbes...)...),
+		append([]c13Op{{K: "reload", C: seg([]int{2, 1, 3}, "", ":443")}}, segProbes...)...)})
+	putSeg := func(k int, path string) c13Op { return put(k, "https://cloud.example"+path, k) }
+	cs = append(cs, &c13Case{Id: 900010, Kind: 1, Mode: 1, Stream: "directed", Ops: append(append(append([]c13Op{
+		putSeg(1, "/nextcloud/"), putSeg(2, "/nextcloud-test/"), putSeg(3, "/nextcloud2/")}, segProbes...),
+		append([]c13Op{{K: "del", Key: 1}, putSeg(4, "/nextcloud/")}, segProbes...)...),
+		append([]c13Op{{K: "del", Key: 2}}, segProbes...)...)})
+	// the same three siblings in etcd, written WITHOUT trailing slash (the form of the example in
+	// server.conf.in), then with a written-out standard port, then slash-terminated
+	cs = append(cs, &c13Case{Id: 900011, Kind: 1, Mode: 1, Stream: "directed", Ops: append(append(append([]c13Op{
+		putSeg(1, "/nextcloud"), putSeg(2, "/nextcloud-test"), putSeg(3, "/nextcloud2")}, segProbes...),
+		append([]c13Op{put(1, "https://cloud.example:443/nextcloud", 1), {K: "del", Key: 3}, put(5, "https://cloud.example:443/nextcloud2", 5)}, segProbes...)...),
+		append([]c13Op{putSeg(2, "/nextcloud-test/"), {K: "del", Key: 1}}, segProbes...)...)})
+	// the shorter path under the LATER key: the lookup walks the longer one first
+	cs = append(cs, &c13Case{Id: 900012, Kind: 1, Mode: 1, Stream: "directed", Ops: append([]c13Op{
+		putSeg(1, "/nextcloud-test"), putSeg(2, "/nextcloud"), putSeg(3, "/nextclou")}, segProbes...)})
+	// Witnesses of the former finding C13/etcd/url-without-trailing-slash (repaired by fixes/C13/07;
+	// the histories of C13_lookup_unrepaired_boundary_refuted / _sibling_secret_refuted and of
+	// C13_etcd_owner_nonvacuous): an etcd value whose URL does not end in "/" accepts its own
+	// URLs and refuses those of a sibling whose path continues the last segment ...
+	cs = append(cs, &c13Case{Id: 900103, Kind: 1, Mode: 1, Stream: "directed", Ops: append([]c13Op{
+		putSeg(1, "/nextcloud")},
+		probe("https://cloud.example/nextcloud/ocs/v2.php", "https://cloud.example/nextcloud-test/ocs/v2.php",
+			"https://cloud.example/nextcloud-test/ocs/v2.php/apps/spreed/api/v1/signaling/backend")...)})
+	// ... and with the sibling configured under a later key each URL is answered with its own secret
+	cs = append(cs, &c13Case{Id: 900104, Kind: 1, Mode: 1, Stream: "directed", Ops: append([]c13Op{
+		putSeg(1, "/nextcloud"), putSeg(2, "/nextcloud-test")},
+		probe("https://cloud.example/nextcloud-test/ocs/v2.php", "https://cloud.example/nextcloud/ocs/v2.php")...)})
 	// OPEN FINDING: reload into / out of the deprecated modes is ignored
 	cs = append(cs, &c13Case{Id: 900101, Kind: 0, Mode: 1, Stream: "directed", Finding: "C13/static/reload/deprecated-mode", Ops: append([]c13Op{
 		{K: "init", C: &c13Config{Ids: []int{0}, Allowed: []string{"h1.example"}, Secret: 7}},
@@ -1279,6 +1379,22 @@ func TestVerifC13(t *testing.T) {
 		term, ok := c.coqTerm()
 		if !ok {
 			t.Fatalf("case %d: unknown op", c.Id)
+		}
+		// assumption of C13_etcd_owner_trace about net/url, checked on every URL written to etcd
+		for i := range c.Ops {
+			if o := &c.Ops[i]; o.K == "put" {
+				data, _ := o.payload()
+				var info BackendInformationEtcd
+				if json.Unmarshal(data, &info) == nil && info.Url != "" {
+					sink.count("oracle_regular_checked")
+					if msg := c13OracleRegular(info.Url); msg != "" {
+						t.Fatalf("case %d: net/url does not meet the oracle assumption of the etcd theorem (oracle_regular): %s", c.Id, msg)
+					}
+				}
+			}
+		}
+		for i := range c.Outs {
+			c.Ops[i].Out = c.Outs[i]
 		}
 		sink.count("stream_" + c.Stream)
 		for _, e := range c.Edits {
